@@ -514,7 +514,7 @@ func ruleSelKey(r *Run) {
 		n++
 		good := false
 		for _, o := range p.origins(c.Call.Args[1], originOpts{throughConvert: true}) {
-			if fc, ok := isInvokeNamed(o, "FullName"); ok && fc.Common().Value == ssa.Value(ah.Params[2]) {
+			if fc, ok := isInvokeNamed(o, "FullName"); ok && p.isRegisteredMethodDesc(ah, fc.Common().Value) {
 				good = true
 			}
 		}
@@ -524,11 +524,52 @@ func ruleSelKey(r *Run) {
 		if fa, ok := c.Call.Args[0].(*ssa.FieldAddr); ok && fieldOfAddr(fa).Name() == "httprules" {
 			recvOK = true
 		}
+		for _, o := range p.origins(c.Call.Args[0], originOpts{}) {
+			if fa, ok := o.(*ssa.FieldAddr); ok && fieldOfAddr(fa).Name() == "httprules" {
+				recvOK = true
+			}
+		}
 		r.check(recvOK, "(*state).appendHandler/selector-source", in.Pos(), "the selector trie is the options' httprules", "the selector trie queried is not opts.httprules")
 	})
 	if n == 0 {
 		r.bad("(*state).appendHandler/selector-key", ah.Pos(), "appendHandler never consults the service-config rules")
 	}
+}
+
+// isRegisteredMethodDesc: v is "the descriptor of the method being registered" in appendHandler: its parameter of
+// type protoreflect.MethodDescriptor, or the desc field of its *handler parameter (the two are the same value at
+// every call site; which one the function reads is a matter of signature style).
+func (p *Program) isRegisteredMethodDesc(ah *ssa.Function, v ssa.Value) bool {
+	hd := p.StructField("handler", "desc")
+	os := p.origins(v, originOpts{})
+	if len(os) == 0 {
+		return false
+	}
+	for _, o := range os {
+		if par, ok := o.(*ssa.Parameter); ok && par.Parent() == ah {
+			if nm := namedOf(par.Type()); nm != nil && nm.Obj().Name() == "MethodDescriptor" {
+				continue
+			}
+		}
+		if hd != nil && loadsField(o, hd) {
+			// loaded from a handler that is appendHandler's parameter
+			if u, ok := o.(*ssa.UnOp); ok {
+				if fa, ok := u.X.(*ssa.FieldAddr); ok {
+					fromParam := false
+					for _, bo := range p.origins(fa.X, originOpts{}) {
+						if par, ok := bo.(*ssa.Parameter); ok && par.Parent() == ah {
+							fromParam = true
+						}
+					}
+					if fromParam {
+						continue
+					}
+				}
+			}
+		}
+		return false
+	}
+	return true
 }
 
 func ruleSelSameBinder(r *Run) {
@@ -565,7 +606,7 @@ func ruleSelSameBinder(r *Run) {
 				}
 			}
 		}
-		descOK := c.Call.Args[2] == ssa.Value(ah.Params[2])
+		descOK := p.isRegisteredMethodDesc(ah, c.Call.Args[2])
 		nameOK := false
 		for _, o := range p.origins(c.Call.Args[3], originOpts{}) {
 			if loadsField(o, hm) {
@@ -576,27 +617,31 @@ func ruleSelSameBinder(r *Run) {
 		if f := loadedField(c.Call.Args[0]); f != nil && f.Name() == "path" {
 			pathOK = true
 		}
-		// its error is returned
+		// its failure makes appendHandler fail: a non-nil error is returned where this call's error is non-nil
 		errRet := false
 		eachInstr(ah, func(in ssa.Instruction) {
 			rt, ok := in.(*ssa.Return)
-			if !ok {
+			if !ok || len(rt.Results) == 0 {
 				return
 			}
-			for _, o := range p.origins(rt.Results[0], originOpts{}) {
-				if fc, ok := o.(*ssa.Call); ok && calleeName(fc) == "fmt.Errorf" {
-					for _, a := range fc.Call.Args {
-						for _, el := range p.flattenAppend(a, 0) {
-							for _, eo := range p.origins(el, defaultOrigin) {
-								if eo == ssa.Value(c) {
-									errRet = true
-								}
-							}
-						}
-					}
+			mayNil := false
+			for _, o := range p.origins(rt.Results[len(rt.Results)-1], originOpts{local: true}) {
+				if isNilConst(o) {
+					mayNil = true
 				}
-				if o == ssa.Value(c) {
-					errRet = true
+			}
+			if mayNil {
+				return
+			}
+			for _, g := range guardsOf(rt.Block()) {
+				x, y, op, ok := g.cmp()
+				if !ok || op != token.NEQ || !isNilConst(y) {
+					continue
+				}
+				for _, o := range p.origins(x, originOpts{local: true}) {
+					if o == ssa.Value(c) {
+						errRet = true
+					}
 				}
 			}
 		})
